@@ -82,6 +82,16 @@ SuppCons ==
        <<"empty-then-stmt", Block(<< [k |-> "empty"], Upd(X, 4), [k |-> "empty"], Upd(X, 5) >>)>>
     >>
 
+\* supported side-effecting sub-expressions nested in one another (each must show up in the effect sequence)
+SuppExprCons ==
+    << <<"call-of-postfix", Call("clz32", <<CastE(U32, Postfix("++", X))>>)>>,
+       <<"call-of-call", Call("clo32", <<Call("clz32", <<CastE(U32, A)>>)>>)>>,
+       <<"call-of-not-call", Call("clo32", <<Un("~", Call("revbit32", <<CastE(U32, A)>>))>>)>>,
+       <<"call-of-stmtexpr", Call("clz32", <<CastE(U32, StmtExpr(<< Upd(X, 4) >>, X))>>)>>,
+       <<"stmtexpr-of-call", StmtExpr(<< Upd(X, 4) >>, Call("clz32", <<CastE(U32, X)>>))>>,
+       <<"sum-of-postfix-and-call", Bin("+", Postfix("++", X), CastE(S32, Call("clz32", <<CastE(U32, A)>>)))>>
+    >>
+
 StmtPos(c, pos) ==
     CASE pos = "seq"    -> << Upd(X, 1), c, Upd(X, 2) >>
       [] pos = "first"  -> << c, Upd(X, 2) >>
@@ -114,9 +124,13 @@ SuppProgs == [i \in 1..(Len(SuppCons) * Len(StmtPositions)) |->
                 LET c == SuppCons[((i - 1) \div Len(StmtPositions)) + 1]
                     pos == StmtPositions[((i - 1) % Len(StmtPositions)) + 1]
                 IN  P("ss-" \o c[1] \o "-" \o pos, StmtPos(c[2], pos), <<"supported-stmt", c[1], pos>>)]
+SuppExprProgs == [i \in 1..(Len(SuppExprCons) * Len(ExprPositions)) |->
+                LET c == SuppExprCons[((i - 1) \div Len(ExprPositions)) + 1]
+                    pos == ExprPositions[((i - 1) % Len(ExprPositions)) + 1]
+                IN  P("se-" \o c[1] \o "-" \o pos, ExprPos(c[2], pos), <<"supported-expr", c[1], pos>>)]
 Controls == << P("u0-control", << Upd(X, 1), Loop(<< Upd(X, 3) >>), Upd(X, 2) >>, <<"control">>) >>
 
-Programs == StmtProgs \o ExprProgs \o SuppProgs \o Controls
+Programs == StmtProgs \o ExprProgs \o SuppProgs \o SuppExprProgs \o Controls
 VARIABLE x
 Init == x = JsonSerialize(IOEnv.GEN_OUT, Programs)
 Next == FALSE /\ x' = x
